@@ -20,7 +20,7 @@ from utype.utils import exceptions as uexc   # noqa: E402
 
 ID = "C17"
 LEVEL = "model_checking"
-RULE = ("programs: 6 reference graphs (self, A->B, A<->B, A->B through two fields, A->B->C->A, A->B with a function over both) "
+RULE = ("programs: 7 reference graphs (self, A->B, A<->B, A->B through two fields, A->B->C->A, A->B with a function over both, A->B with a subclass C(A)) "
         "x every spelling of each reference (direct, 'B', List['B'], Dict[str,'B'], Optional['B'], Union['B', None], "
         "'List[B]', any_of('B', None), postponed evaluation) x every definition order Python accepts x {module scope, "
         "function-local scope} x every first-use order x inputs (valid, convertible leaf, invalid leaf, missing nested "
@@ -35,7 +35,7 @@ ASSUMPTIONS = [
     "two-module scenario, whose point is what survives from the first module)",
 ]
 
-SPELLINGS = ["direct", "str", "list", "dict", "optional", "union-none", "str-generic", "logical", "future"]
+SPELLINGS = ["direct", "str", "list", "dict", "optional", "union-none", "str-generic", "logical", "future", "tuple2", "dict-list"]
 
 # graphs: name -> (classes, edges [(src, field, dst)])
 GRAPHS = {
@@ -45,6 +45,8 @@ GRAPHS = {
     "a-b-twice": (["A", "B"], [("A", "b1", "B"), ("A", "b2", "B")]),
     "cycle3": (["A", "B", "C"], [("A", "b", "B"), ("B", "c", "C"), ("C", "a", "A")]),
     "func": (["A", "B"], [("A", "b", "B")]),
+    # C(A) inherits A's fields (and their still unresolved references): C may be the first class ever used
+    "inherit": (["A", "B", "C"], [("A", "b", "B")]),
 }
 
 
@@ -60,6 +62,9 @@ def annotation(spelling, target):
         "str-generic": (f"'List[{target}]'", "list", "Field(default_factory=list)"),
         "logical": (f"any_of('{target}', None)", "opt", "None"),
         "future": (f"Optional[{target}]", "opt", "None"),
+        # several nested generic / union arguments, each carrying the reference
+        "tuple2": (f"Tuple[Optional['{target}'], List['{target}']]", "tuple2", "None"),
+        "dict-list": (f"Dict[str, List['{target}']]", "dictlist", "Field(default_factory=dict)"),
     }[spelling]
 
 
@@ -84,6 +89,8 @@ class Program:
         for (s, f, d), sp in zip(self.edges, self.spellings):
             if sp == "direct" and not self.future and pos[d] >= pos[s]:
                 return False
+        if self.graph == "inherit" and pos["C"] < pos["A"]:
+            return False
         if self.future and any(sp not in ("future",) for sp in self.spellings):
             # with postponed evaluation every annotation of the module is a string: spell them all as 'future'
             return False
@@ -101,6 +108,10 @@ class Program:
             lines += [ind + "@utype.parse", ind + "def F(x: 'A', y: List['B'] = None) -> 'B':",
                       ind + "    return dict(v=x.v + 100, extra=[len(y or [])])"]
         for c in self.order:
+            if self.graph == "inherit" and c == "C":
+                lines.append(ind + "class C(A):")
+                lines.append(ind + "    extra: int = 0")
+                continue
             lines.append(ind + f"class {c}(Schema):")
             lines.append(ind + "    v: int")
             if c == "B" and self.graph == "func":
@@ -146,6 +157,10 @@ class Reject(Exception):
 def model_parse(p: Program, cls, data, depth=0):
     if not isinstance(data, dict):
         raise Reject("not a mapping")
+    if p.graph == "inherit" and cls == "C":
+        out = model_parse(p, "A", data, depth)
+        out["extra"] = int(data.get("extra", 0))
+        return out
     out = {}
     if "v" not in data:
         raise Reject("v missing")
@@ -161,7 +176,7 @@ def model_parse(p: Program, cls, data, depth=0):
             continue
         kind = wr[(s, f)]
         if f not in data:
-            out[f] = [] if kind == "list" else {} if kind == "dict" else None
+            out[f] = [] if kind == "list" else {} if kind in ("dict", "dictlist") else None
             continue
         val = data[f]
         if kind in ("opt", "plain"):
@@ -177,6 +192,15 @@ def model_parse(p: Program, cls, data, depth=0):
             if not isinstance(val, dict):
                 raise Reject("not a dict")
             out[f] = {k: model_parse(p, d, x, depth + 1) for k, x in val.items()}
+        elif kind == "tuple2":
+            if not isinstance(val, list) or len(val) != 2 or not isinstance(val[1], list):
+                raise Reject("not a pair")
+            out[f] = [None if val[0] is None else model_parse(p, d, val[0], depth + 1),
+                      [model_parse(p, d, x, depth + 1) for x in val[1]]]
+        elif kind == "dictlist":
+            if not isinstance(val, dict) or not all(isinstance(x, list) for x in val.values()):
+                raise Reject("not a dict of lists")
+            out[f] = {k: [model_parse(p, d, x, depth + 1) for x in lst] for k, lst in val.items()}
     return out
 
 
@@ -190,6 +214,8 @@ def to_plain(v):
 
 def build_inputs(p: Program, cls, leaf, depth):
     """one nested input for class `cls`: follows every edge to the given depth, `leaf` is the deepest v"""
+    if p.graph == "inherit" and cls == "C":
+        cls = "A"
     data = {"v": depth if depth > 0 else leaf}
     if depth <= 0:
         return data
@@ -199,7 +225,8 @@ def build_inputs(p: Program, cls, leaf, depth):
             continue
         child = build_inputs(p, d, leaf, depth - 1)
         kind = wr[(s, f)]
-        data[f] = child if kind in ("opt", "plain") else [child, {"v": 7}] if kind == "list" else {"k": child}
+        data[f] = (child if kind in ("opt", "plain") else [child, {"v": 7}] if kind == "list" else {"k": child} if kind == "dict"
+                   else [child, [{"v": 7}]] if kind == "tuple2" else {"k": [child, {"v": 7}]})
     return data
 
 
@@ -213,10 +240,11 @@ def inputs_for(p, cls):
             out.append(build_inputs(p, cls, leaf, depth))
     # a nested mapping without its required field
     for (s, f, d) in p.edges:
-        if s == cls:
+        if s == cls or (p.graph == "inherit" and cls == "C" and s == "A"):
             kind = p.wrappers()[(s, f)]
             bad = {"w": 1}
-            out.append({"v": 1, f: bad if kind in ("opt", "plain") else [bad] if kind == "list" else {"k": bad}})
+            out.append({"v": 1, f: bad if kind in ("opt", "plain") else [bad] if kind == "list" else {"k": bad} if kind == "dict"
+                        else [bad, []] if kind == "tuple2" else {"k": [bad]}})
     return out
 
 
@@ -262,6 +290,7 @@ def run_shard(shard, tier):
     acc = Acc()
     if shard[0] == "two-modules":
         _two_modules(acc)
+        _shadow(acc)
         return acc
     _, lo, hi = shard
     for p in programs(tier)[lo:hi]:
@@ -392,6 +421,58 @@ def _two_modules(acc):
                                 nested_class=f"{type(nested).__module__}.{type(nested).__name__}"))
             for m in mods:
                 cleanup(m)
+
+
+SHADOW = {
+    "local-shadows-module": (
+        "from utmc.ns import *\n"
+        "class Node(Schema):\n    v: int\n    tag: str = 'module-level'\n"
+        "def make():\n    class Node(Schema):\n        v: int\n        nxt: {ann} = {default}\n    return Node\n"
+        "Local = make()\n", "Local"),
+    "redefined-later": (
+        "from utmc.ns import *\n"
+        "class Node(Schema):\n    v: int\n    nxt: {ann} = {default}\n"
+        "First = Node\n"
+        "class Node(Schema):\n    v: int\n    tag: str = 'second definition'\n    nxt: {ann} = {default}\n", "First"),
+}
+
+
+def _shadow(acc):
+    """a string self-reference means the declaring class, whatever else the name is bound to in the module"""
+    import typing
+    for sname, (tmpl, target) in SHADOW.items():
+        for sp in TWO_SPELLINGS:
+            for f in typing._cleanups:
+                f()
+            ann, kind, default = annotation(sp, "Node")
+            src = tmpl.format(ann=ann, default=default)
+            _SEQ[0] += 1
+            m = types.ModuleType(f"utmc_c17_shadow_{_SEQ[0]}")
+            sys.modules[m.__name__] = m
+            exec(compile(src, f"<{m.__name__}>", "exec"), m.__dict__)
+            cls = m.__dict__[target]
+            child = {"v": "2"}
+            data = {"v": 1, "nxt": child if kind in ("opt", "plain") else [child] if kind == "list" else {"k": child}}
+            acc.states += 1
+            acc.transitions += 1
+            st, r = call_guarded(lambda: cls.__from__(data), wall_s=2.0)
+            acc.evaluations += 1
+            acc.nontrivial_add((sname, sp))
+            script = "\n".join(["import sys", "sys.path.insert(0, '/verif')", "from utmc.props import c17", "acc = c17.Acc()",
+                                "c17._shadow(acc)", f"hits = [fp for fp in acc.violations if '|{sname}|{sp}|' in fp]",
+                                "for fp in hits: print(fp, acc.violations[fp][0].summary)", "sys.exit(1 if hits else 0)"]) + "\n"
+            if st != "ok":
+                acc.outcomes["rejected"] += 1
+                acc.violation(f"C17|shadow|{sname}|{sp}|rejected", f"{sname} (self-reference spelled {ann}): {target}.__from__({data}) "
+                              f"is rejected: {short(r, 120)}", script)
+            else:
+                nested = r.nxt if kind in ("opt", "plain") else r.nxt[0] if kind == "list" else r.nxt["k"]
+                acc.outcomes["ok"] += 1
+                if type(nested) is not cls:
+                    acc.violation(f"C17|shadow|{sname}|{sp}|wrong-class", f"{sname} (self-reference spelled {ann}): the nested value "
+                                  f"became {type(nested).__qualname__} {short(nested, 60)} instead of the declaring class", script)
+            acc.sample(dict(scenario=sname, spelling=sp, outcome=st))
+            cleanup(m)
 
 
 def _two_script(sp, first_use):
